@@ -38,7 +38,9 @@ def classify(unit: dict[str, Any], call: dict[str, Any], ref: list[list[Any]], g
     b = got[i] if i < len(got) else ["<nothing>"]
     if a[0] in ("exc", "setup-exc") and b[0] == a[0]:
         if a[1] != b[1]:
-            return (f"exc-type:{a[1]}->{b[1]}:{F.norm_msg(str(b[2]))}",
+            # free-form units: the compiled exception may simply come earlier than the interpreted one, so the interpreted
+            # type is an accident of the unit, not part of the mechanism
+            return (f"exc-type:{'*' if free else a[1]}->{b[1]}:{F.norm_msg(str(b[2]))}",
                     f"interpreted raises {a[1]}({a[2]!r}), compiled raises {b[1]}({b[2]!r})")
         return (f"exc-message:{a[1]}:{F.norm_msg(str(a[2]))} => {F.norm_msg(str(b[2]))}",
                 f"same exception type {a[1]} but different message: {a[2]!r} vs {b[2]!r}")
@@ -46,7 +48,14 @@ def classify(unit: dict[str, Any], call: dict[str, Any], ref: list[list[Any]], g
         return (f"missing-exception:{a[1]}:{F.norm_msg(str(a[2]))}:{kind}", f"interpreted raises {a[1]}({a[2]!r}), compiled yields {b[:2]}")
     if b[0] in ("exc", "setup-exc"):
         return (f"spurious-exception:{b[1]}:{F.norm_msg(str(b[2]))}:{kind}", f"compiled raises {b[1]}({b[2]!r}), interpreted yields {a[:2]}")
-    what = {"ret": "value", "yield": "yielded-value", "stop": "generator-return", "out": "stdout", "post": "post-state",
+    if a[0] == "forced" and b[0] == "forced":
+        x, y = a[2] or ["?"], b[2] or ["?"]
+        xs = x[1] if x[0] == "exc" else x[0]
+        ys = y[1] if y[0] == "exc" else y[0]
+        cb = (str(y[2]) if ys == "Boom" else str(x[2]) if xs == "Boom" else "").split("@")[0]
+        return (f"forced-callback-error:{xs}->{ys}:{cb or F.norm_msg(str(y[2:3]))}:{'free' if free else kind}",
+                f"callback #{a[1]} into an interpreted object raises: interpreted run ends with {x}, compiled with {y}")
+    what = {"ret": "value", "yield": "yielded-value", "callbacks": "callback-sequence", "stop": "generator-return", "out": "stdout", "post": "post-state",
             "post-exc": "post-state"}.get(a[0] if a[0] != "<nothing>" else b[0], "events")
     if a[0] != b[0]:
         what = f"event-sequence:{a[0]}->{b[0]}"
@@ -105,7 +114,7 @@ def compare(ctx: common.Ctx, prog: dict[str, Any], cfg: str, ref: dict[str, Any]
                     continue
                 seen_pairs.add((key, cfg))
                 ctx.violation(key, what, {"config": cfg, "unit_kind": u["kind"], "unit_source": u["src"], "standalone_source": P.standalone(u), "call": call,
-                                          "driver_prelude": u.get("prelude") or "",
+                                          "driver_prelude": u.get("prelude") or "", "classes": u.get("classes") or {},
                                           "interpreted": r["ev"], "compiled": g["ev"], "module": u["mod"],
                                           "program_files": sorted(prog["files"]), "repo": repo,
                                           "how": "compile the program's modules with mypycify(opt_level/multi_file/separate per `config`), "
@@ -206,9 +215,31 @@ def run(ctx: common.Ctx) -> None:
 
 
 def replay(ctx: common.Ctx, rep: dict[str, Any]) -> int:
+    """Re-execute one witness: compile its stand-alone source (prelude + the unit) and run the one call both ways."""
     import json
+    from vlib import c05_harness as H
     w = rep.get("witness", {})
-    print(json.dumps({k: w.get(k) for k in ("config", "unit_kind", "call", "interpreted", "compiled")}, indent=1)[:3000])
-    print(w.get("unit_source", ""))
-    print("(self-contained witness: compile unit_source inside the generated prelude - see vlib/c05_program.py - and run the call)")
-    return 0
+    if not w.get("standalone_source") or not w.get("call"):
+        print(json.dumps(w, indent=1)[:4000])
+        return 0
+    cfg = w.get("config", "o0")
+    cfg = {"mf0": "o0", "mf3": "o3", "sep0": "o0", "sep3": "o3"}.get(cfg, cfg)
+    files = {"native.py": w["standalone_source"]}
+    spec = {"mode": "transcript", "modules": ["native"], "classes": dict(P.BASE_CLASSES, **(w.get("classes") or {})),
+            "prelude": w.get("driver_prelude") or "", "units": [{"name": "u", "calls": [dict(w["call"], id="u#0")]}]}
+    with common.workdir("C05-replay") as wd:
+        b = H.build_program(files, os.path.join(wd, "c"), cfg)
+        if not b["ok"]:
+            print("INCONCLUSIVE: the witness program no longer compiles\n" + b.get("log", "")[-1500:])
+            return 2
+        ref = H.task_drive(spec, os.path.join(wd, "i"), os.path.join(wd, "i.out"), "plain", 300, files)
+        got = H.drive_all(spec, os.path.join(wd, "c"), os.path.join(wd, "c.out"), "plain", 300)
+    a = (ref["calls"].get("u#0") or {}).get("ev")
+    g = (got["calls"].get("u#0") or {}).get("ev")
+    print("key:", rep.get("key"))
+    print("call:", w["call"].get("setup"), w["call"].get("call"))
+    print("interpreted:", json.dumps(a)[:1500])
+    print("compiled   :", json.dumps(g)[:1500], got["crashes"] or "")
+    same = a == g and not got["crashes"]
+    print("REPRODUCED" if not same else "not reproduced (transcripts are equal)")
+    return 0 if same else 1
